@@ -112,4 +112,6 @@ def run(tier, seed):
     chk.sample({"victim": fam[0][1][0][:6], "hostile": scheds[0]["concurrent"]["2"][:6]})
     from checks import c19_client
     c19_client.run_into(chk, tier, seed)
+    from checks import c19_proto
+    c19_proto.run_into(chk, tier, seed)
     return chk.finish()
